@@ -242,7 +242,7 @@ func Mutate(t *rapid.T, frame []byte, ethernet bool) ([]byte, string) {
 		}
 		return 20
 	}
-	ops := []string{"truncate", "ihl", "totlen", "proto", "doff", "frag", "version", "trailing", "flip", "arp-sizes", "ethertype", "random", "arp-htype", "short-l4"}
+	ops := []string{"truncate", "ihl", "totlen", "proto", "doff", "frag", "version", "trailing", "flip", "arp-sizes", "ethertype", "random", "arp-htype", "short-l4", "eth-in-eth"}
 	op := ops[kit.Uniform(t, "mutation", len(ops))]
 	switch op {
 	case "truncate":
@@ -299,12 +299,28 @@ func Mutate(t *rapid.T, frame []byte, ethernet bool) ([]byte, string) {
 		}
 	case "ethertype":
 		if ethernet && len(f) >= 14 {
-			binary.BigEndian.PutUint16(f[12:], rapid.SampledFrom([]uint16{0x0800, 0x0806, 0x86dd, 0x8100, 0x88cc, 0x0000, 0x05dc}).Draw(t, "newtype"))
+			binary.BigEndian.PutUint16(f[12:], rapid.SampledFrom([]uint16{0x0800, 0x0806, 0x86dd, 0x8100, 0x88cc, 0x0000, 0x05dc, 0x6558, 0x88a8, 0x8847, 0x8864}).Draw(t, "newtype"))
 		}
 	case "short-l4":
 		// keep the IP header, cut inside the transport header
 		if o := l3 + ihl(); len(f) > o {
 			f = f[:o+kit.Uniform(t, "l4cut", min(len(f)-o, 21))]
+		}
+	case "eth-in-eth":
+		// an outer Ethernet header whose payload is another Ethernet frame (ethertype 0x6558) - the inner one is this
+		// frame, this frame with an unknown ethertype, or nothing
+		if ethernet {
+			outer := []byte{2, 0, 0, 0, 0, 1, 2, 9, 9, 9, 9, 9, 0x65, 0x58}
+			inner := append([]byte(nil), f...)
+			switch rapid.IntRange(0, 2).Draw(t, "inner") {
+			case 1:
+				if len(inner) >= 14 {
+					inner[12], inner[13] = 0x12, 0x34
+				}
+			case 2:
+				inner = inner[:min(len(inner), 14)]
+			}
+			f = append(outer, inner...)
 		}
 	case "random":
 		f = rapid.SliceOfN(rapid.Byte(), 0, 100).Draw(t, "random-bytes")
